@@ -26,10 +26,27 @@ Definition obs_eqb (a b : obs) : bool := list_eqb item_eqb (fst a) (fst b) && Na
 (* c_engine: true = engine.QueryRunner (blocking holders are slots taken on the shared channel by the
    harness), false = distributed.QueryRunner (blocking holders are real queries held at the mock).
    c_obs: per operation, the (query, code) items in the order seen and len(sem) once settled. *)
-Record case := mkCase { c_engine : bool; c_max : nat; c_ops : list op; c_obs : list obs }.
+Record case := mkCase { c_engine : bool; c_max : nat; c_ops : list op; c_obs : list obs;
+                        c_cfg : option cfg }.
+(* c_cfg = Some g: the runner is the one built by the real global-query API server from the options
+   WithQueryRateLimit(rate, burst, max_concurrent), queries go through its HTTP handler; c_max is unused and
+   the sample is the number of queries the mock sees executing (the channel is private to the server) *)
+
+Definition model_max (c : case) : nat :=
+  match c_cfg c with
+  | None => c_max c
+  | Some g => cap_or_unlimited (effective_max g) (spawn_count (c_ops c))
+  end.
+
+(* specification: a configured max_concurrent > 0 IS the limit, whatever the rate limiter settings *)
+Definition spec_max (c : case) : nat :=
+  match c_cfg c with
+  | None => c_max c
+  | Some g => if 0 <? max_conc g then max_conc g else spawn_count (c_ops c)
+  end.
 
 Definition corr (c : case) : bool :=
-  match predict (c_max c) (c_ops c) with
+  match predict (model_max c) (c_ops c) with
   | Some p => list_eqb obs_eqb p (c_obs c)
   | None => false
   end.
@@ -92,4 +109,4 @@ Fixpoint check (max : nat) (live : list nat) (ops : list op) (os : list obs) : b
   | _, _ => false
   end.
 
-Definition holds (c : case) : bool := check (c_max c) [] (c_ops c) (c_obs c).
+Definition holds (c : case) : bool := check (spec_max c) [] (c_ops c) (c_obs c).
